@@ -28,6 +28,12 @@ package supervisor
 //@ event DeadlineAlreadyPast = ret time.Since when r0 > 0
 //@ event DeadlineNotPast = ret time.Since when r0 <= 0
 //@ event KillInner = call supervisor.kill
+// the termination channel of a process: made in Exec, closed by its waiter (and by nobody else), never sent on; a receive on it
+// therefore succeeds only after the close, i.e. after Wait returned
+//@ event TerminationClosed = close local:supervisor.(*LocalSupervisor).Exec.termination
+//@ event TerminationSentOn = send local:supervisor.(*LocalSupervisor).Exec.termination
+//@ event TerminationFieldClosed = close supervisor.process.termination
+//@ event TerminationFieldSentOn = send supervisor.process.termination
 
 //@ typeinv LocalSupervisor s
 //@   inv s.processMap != nil
@@ -38,6 +44,7 @@ package supervisor
 //@   requires req != nil
 //@   ensures [C19: the-termination-event-does-not-wait-for-whoever-inherited-the-output] delta(ProcStartedWithUnboundedOutputWait) == 0
 //@   ensures [other-domains-are-a-no-op] req.Domain != "runtime" ==> r0 == nil && delta(ProcStart) == 0 && delta(WaiterSpawned) == 0
+//@   ensures [C19: only-the-waiter-closes-the-termination-channel] delta(TerminationClosed) == 0 && delta(TerminationSentOn) == 0 && delta(TerminationFieldClosed) == 0 && delta(TerminationFieldSentOn) == 0
 //@   ensures [start-failure-is-reported] delta(ProcStartFailed) == 1 ==> r0 != nil && delta(WaiterSpawned) == 0
 //@   ensures [one-waiter-per-started-process] req.Domain == "runtime" ==> delta(ProcStart) == 1 && delta(WaiterSpawned) == 1 - delta(ProcStartFailed) && (delta(WaiterSpawned) == 1 ==> r0 == nil && has(s.processMap, req.Name) && first(ProcStart) < first(WaiterSpawned))
 
@@ -49,6 +56,7 @@ package supervisor
 //@ event SignalRead = ret syscall.(WaitStatus).Signal
 //@ func (*LocalSupervisor).Exec$1
 //@   ensures [C19: the-status-is-the-process-state's-whatever-the-output-copy-reported] command.ProcessState != nil ==> delta(WaitStatusDecoded) == 1 && lastarg(WaitStatusDecoded, 0) == command.ProcessState
+//@   ensures [C19: the-termination-channel-is-closed-once-after-the-wait-and-before-the-event] delta(TerminationClosed) == 1 && first(ProcWaited) < first(TerminationClosed) && first(TerminationClosed) < first(ExitEventSent) && delta(TerminationSentOn) == 0
 //@   ensures [exactly-one-event-after-the-wait] delta(ProcWaited) == 1 && delta(ExitEventSent) == 1 && first(ProcWaited) < first(ExitEventSent)
 //@   ensures [status-or-signal-not-both] (lastarg(ExitEventSent, 0).Event.Signo == nil) != (lastarg(ExitEventSent, 0).Event.ExitStatus == nil)
 //@   ensures [the-event-carries-what-the-wait-status-says] delta(ExitCodeRead) == 1 ==> (lastret(ExitCodeRead) >= 0 ==> lastarg(ExitEventSent, 0).Event.ExitStatus != nil && (lastret(ExitCodeRead) < 2147483648 ==> deref(lastarg(ExitEventSent, 0).Event.ExitStatus) == lastret(ExitCodeRead)) && lastarg(ExitEventSent, 0).Event.Signo == nil) && (lastret(ExitCodeRead) < 0 ==> delta(SignalRead) == 1 && lastarg(ExitEventSent, 0).Event.Signo != nil && lastarg(ExitEventSent, 0).Event.ExitStatus == nil)
@@ -66,6 +74,7 @@ package supervisor
 //@   ensures [past-deadline-is-an-error-without-signal] delta(DeadlineAlreadyPast) == 1 ==> r0 != nil && delta(SignalSent) == 0
 //@   ensures [whole-group-sigkill] delta(SignalSent) <= 1 && delta(KillSignalSent) == delta(SignalSent) && (delta(SignalSent) == 1 && delta(DeadlineNotPast) == 1 ==> delta(GroupLookup) == 1 && (delta(GroupFound) == 1 && lastret(GroupLookup) >= 0 ==> lastarg(SignalSent, 0) == 0 - lastret(GroupLookup)) && (delta(GroupFound) == 0 ==> lastarg(SignalSent, 0) == 0 - p.pid))
 //@   ensures [outliving-the-deadline-is-an-error] delta(KillDeadlineHit) == 1 ==> r0 != nil
+//@   ensures [C19: only-the-waiter-closes-the-termination-channel] delta(TerminationFieldClosed) == 0 && delta(TerminationFieldSentOn) == 0
 
 // C19 ("for many processes at once", "Terminate ... without waiting"): Kill may wait for seconds; it does so with the process
 // map unlocked, or every other Exec, Terminate and Kill would wait behind it
@@ -76,11 +85,13 @@ package supervisor
 //@   ensures [other-domains-are-a-no-op] req.Domain != "runtime" ==> r0 == nil && delta(KillInner) == 0 && delta(SignalSent) == 0
 //@   ensures [unknown-name-is-an-error] req.Domain == "runtime" && !old(has(s.processMap, req.Name)) ==> r0 != nil && typeis(r0, *model.SupervisorError) && r0.(*model.SupervisorError).Kind == model.NoSuchEntity && delta(KillInner) == 0 && delta(SignalSent) == 0
 //@   ensures [known-name-is-killed] req.Domain == "runtime" && old(has(s.processMap, req.Name)) ==> delta(KillInner) == 1 && lastarg(KillInner, 1) == req.Name
+//@   ensures [C19: only-the-waiter-closes-the-termination-channel] delta(TerminationFieldClosed) == 0 && delta(TerminationFieldSentOn) == 0
 
 // Terminate: SIGTERM to the group, best effort, never waits
 //@ func (*LocalSupervisor).Terminate
 //@   requires req != nil
 //@   ensures [the-signal-is-addressed-to-the-group-in-every-case] delta(SignalSent) == 1 ==> lastarg(SignalSent, 0) < 0
+//@   ensures [C19: only-the-waiter-closes-the-termination-channel] delta(TerminationFieldClosed) == 0 && delta(TerminationFieldSentOn) == 0
 //@   ensures [other-domains-are-a-no-op] req.Domain != "runtime" ==> r0 == nil && delta(SignalSent) == 0
 //@   ensures [unknown-name-is-an-error] req.Domain == "runtime" && !old(has(s.processMap, req.Name)) ==> r0 != nil && delta(SignalSent) == 0
 //@   ensures [sigterm-to-the-group-without-waiting] req.Domain == "runtime" && old(has(s.processMap, req.Name)) ==> r0 == nil && delta(SignalSent) == 1 && delta(TermSignalSent) == 1 && delta(GroupLookup) == 1 && (delta(GroupFound) == 1 && lastret(GroupLookup) >= 0 ==> lastarg(SignalSent, 0) == 0 - lastret(GroupLookup)) && (delta(GroupFound) == 0 ==> lastarg(SignalSent, 0) == 0 - old(s.processMap[req.Name].pid)) && delta(TerminationSeen) == 0 && delta(KillDeadlineHit) == 0
